@@ -630,3 +630,99 @@ def merged_op(rec):
     else:
         impl = _lst(['%d:%d:%d:%s' % (s, l, n, cps(t)) for (s, l, t, n) in rec['result']])
     return ('merged', line, impl)
+
+
+# ------------------------------------------------------------------ NumberWithUnitParser.parse (unit + number part)
+
+class _NumParserProxy:
+    def __init__(self, real, log):
+        self._real, self._log = real, log
+
+    def parse(self, er):
+        try:
+            pr = self._real.parse(er)
+        except Exception:
+            # the internal number parser is a parameter of the model (C03/C04); when it raises there is nothing to compare
+            self._log['raised'] = True
+            raise
+        self._log[id(er)] = None if pr is None else pr.resolution_str
+        return pr
+
+    def __getattr__(self, name):
+        return getattr(self._real, name)
+
+
+class _ParserCfgProxy:
+    def __init__(self, real, log):
+        self.__dict__['_real'] = real
+        self.__dict__['_log'] = log
+
+    def __getattr__(self, name):
+        if name == 'internal_number_parser':
+            return _NumParserProxy(self.__dict__['_real'].internal_number_parser, self.__dict__['_log'])
+        return getattr(self.__dict__['_real'], name)
+
+
+def _base_parser(mt, cul, k):
+    key = ('bp', mt, cul, k)
+    if key not in _S:
+        from . import recog
+        from recognizers_number_with_unit.number_with_unit.parsers import NumberWithUnitParser
+        p = recog.get_model('NumberWithUnit', mt, cul).extractor_parser[k].parser
+        _S[key] = NumberWithUnitParser(p.config)
+    return _S[key]
+
+
+def run_parse_chunk(tasks):
+    """worker: [(mt, cul, k, family, query)] -> [(task, [(text, numStart, numLen, numRes, half, impl)])]: the real extractor's
+    results go through the real NumberWithUnitParser.parse with the internal number parser's answers recorded"""
+    common.setup_repo_imports()
+    import warnings
+    warnings.filterwarnings('ignore')
+    _mod()
+    ER = _S['ER']
+    from recognizers_text.utilities import QueryProcessor
+    out = []
+    for t in tasks:
+        (mt, cul, k, fam, q) = t
+        rows = []
+        try:
+            ex = _extractor_for(mt, cul, k)
+            bp = _base_parser(mt, cul, k)
+            ers = ex.extract(QueryProcessor.preprocess(q, True))
+        except Exception:
+            out.append((t, rows))
+            continue
+        for er in ers:
+            d = er.data
+            if isinstance(d, ER):
+                num, half = d, None
+            elif isinstance(d, list) and len(d) == 2 and d and isinstance(d[0], ER):
+                num, half = d
+            else:
+                continue   # a bare unit: parse builds its own dummy number (start -1); covered by the unit-key tier
+            log = {}
+            cfg = bp.config
+            bp.config = _ParserCfgProxy(cfg, log)
+            try:
+                pr = bp.parse(er)
+                v = pr.value
+                if v is None:
+                    impl = 'novalue'
+                else:
+                    impl = 'u:%s:%s:%s' % (cps(v.unit), 'None' if v.number is None else cps(v.number), cps(pr.resolution_str))
+            except Exception as e:  # noqa: BLE001
+                impl = 'err:' + type(e).__name__
+            finally:
+                bp.config = cfg
+            if log.get('raised'):
+                rows.append((er.text, num.start, num.length, 'none', 'none', 'number-parser-raised'))
+                continue
+            num_res = log.get(id(num)) if num.text else None
+            hf = 'none'
+            if half is not None:
+                hres = log.get(id(half))
+                hf = '%s:%d:%s' % (cps(half.text), half.length, 'none' if hres is None else cps(hres))
+            rows.append((er.text, num.start, num.length, 'none' if num_res is None else cps(num_res), hf, impl))
+        out.append((t, rows))
+    return out
